@@ -2046,6 +2046,11 @@ class TrajectoryStore:
             raise ValueError(
                 f'Output TrajectoryStore file "{output_store}" already exists'
             )
+        # The inputs are moved into one directory under their own file names:
+        # two inputs with the same name would overwrite one another.
+        names = [Path(p).name for p in input_stores]
+        if len(set(names)) != len(names):
+            raise ValueError('Merge inputs must have distinct file names')
         return input_stores
 
     @staticmethod
